@@ -407,7 +407,11 @@ class FieldDomain:
                     continue
 
                 for key in keys:
-                    found = re.findall(r"\d+$", key)[0]
+                    # Disambiguate by the number at the end of the
+                    # construct identifier, or by the whole
+                    # identifier if it doesn't end with a number
+                    found = re.findall(r"\d+$", key)
+                    found = found[0] if found else key
                     key_to_name[key] = f"{name}{{{found}}}"
 
         return key_to_name
@@ -441,7 +445,8 @@ class FieldDomain:
                 key_to_name[keys[0]] = f"{name}({size})"
             else:
                 for key in keys:
-                    found = re.findall(r"\d+$", key)[0]
+                    found = re.findall(r"\d+$", key)
+                    found = found[0] if found else key
                     key_to_name[key] = f"{name}{{{found}}}({size})"
 
         return key_to_name
